@@ -3,6 +3,6 @@
 out="$1"; shift
 for item in "$@"; do
   prop="${item%%:*}"; dir="${item#*:}"
-  /verif/tools/run_mutant.sh "$dir" "$prop" quick >> "$out" 2>/tmp/mt/err.log
+  /verif/tools/run_mutant.sh "$dir" "$prop" quick ${EXTRA_PROPS:-} >> "$out" 2>/tmp/mt/err.log
 done
 echo "WAVE-DONE" >> "$out"
